@@ -298,7 +298,7 @@ Section EpochLine2.
     meta_str "time_first_obs" s = Some (time_text Y fmo fd fh fmi fsec) /\ last_inv Y s.
 
   Lemma v2_first_line t nsat ids s c :
-    inv2_meta s -> epoch_t_wf t -> (ep_y t / 100 = Y / 100)%Z ->
+    inv2_meta s -> epoch_t_wf t -> (1980 <= ep_y t < 2080)%Z ->
     match ep_clk t with None => True | Some v => fits_F 12 9 v end -> fits_int 3 nsat ->
     ids <> [] -> List.length ids <= 12 -> Forall sat2_id_ok ids ->
     v2_line spec_q rate G2.obs_table (epoch_first_line_v2 t nsat ids) s c =
@@ -380,10 +380,17 @@ Section EpochLine2.
     assert (Ny : String.eqb (if ep_zero t then digits_fixed 2 (ep_y t mod 100) else render_nat (ep_y t mod 100)) "" = false).
     { pose proof (isnumeric_year (ep_zero t) (ep_y t mod 100)) as N.
       destruct (if ep_zero t then digits_fixed 2 (ep_y t mod 100) else render_nat (ep_y t mod 100)); [discriminate|reflexivity]. }
-    rewrite Ny, M1. destruct (first_year Y fmo fd fh fmi fsec HY) as [F4 F2]. rewrite F4.
-    rewrite F2, zfill_year by exact Yy.
-    rewrite parse_int_two by (first [exact Yy | split; [apply Z.div_pos; lia|apply Z.div_lt_upper_bound; lia]]).
-    assert (Ey : (Y / 100 * 100 + ep_y t mod 100 = ep_y t)%Z) by (rewrite <- Hc; pose proof (Z.div_mod (ep_y t) 100); lia).
+    rewrite Ny, M1. cbn [q_century_from_first_obs spec_q].
+    assert (Py : parse_int (if ep_zero t then digits_fixed 2 (ep_y t mod 100) else render_nat (ep_y t mod 100)) = Some (ep_y t mod 100)%Z).
+    { destruct (ep_zero t); [apply parse_int_digits; [lia|exact Yy]|].
+      rewrite <- (strip_render_int_nonneg 2) by lia. rewrite parse_int_strip. apply parse_render_int. }
+    rewrite Py.
+    assert (Ey : year2 (ep_y t mod 100) = ep_y t).
+    { unfold year2. pose proof (Z.div_mod (ep_y t) 100 ltac:(lia)) as DM.
+      assert (Q : (ep_y t / 100 = 19 \/ ep_y t / 100 = 20)%Z).
+      { assert (19 <= ep_y t / 100)%Z by (apply Z.div_le_lower_bound; lia).
+        assert (ep_y t / 100 < 21)%Z by (apply Z.div_lt_upper_bound; lia). lia. }
+      destruct (Z.leb_spec 80 (ep_y t mod 100)); lia. }
     rewrite Ey.
     rewrite <- !(parse_int_strip (" " ++ _)), !strip_lead by reflexivity. rewrite !parse_int_strip, !int_field_parse by (try lia; simpl; lia).
     rewrite parse_render_F, parse_render_int.
@@ -824,7 +831,7 @@ Section Epoch2.
   Notation step := (v2_line spec_q rate G2.obs_table).
 
   Lemma epoch_head_run t ids tail s c :
-    inv2_meta Y fmo fd fh fmi fsec s -> epoch_t_wf t -> (ep_y t / 100 = Y / 100)%Z ->
+    inv2_meta Y fmo fd fh fmi fsec s -> epoch_t_wf t -> (1980 <= ep_y t < 2080)%Z ->
     match ep_clk t with None => True | Some v => fits_F 12 9 v end -> fits_int 3 (Z.of_nat (List.length ids)) ->
     ids <> [] -> Forall sat2_id_ok ids ->
     (exists l tl, tail = l :: tl /\ v2_end_marker (l ++ nlc) = false) ->
@@ -839,7 +846,7 @@ Section Epoch2.
     - cbn [concat] in C1. subst ids. contradiction.
     - apply Forall_cons_iff in C2. destruct C2 as [[Ne0 [L0 F0]] Fr]. cbn [app].
       rewrite (run_obs_cons _ _ _ _ _ _ _ _
-                 (v2_first_line rate Y fmo fd fh fmi fsec HY t (Z.of_nat (List.length ids)) c0 s c Inv W Hc Fc Fn Ne0 L0 F0)).
+                 (v2_first_line rate Y fmo fd fh fmi fsec t (Z.of_nat (List.length ids)) c0 s c Inv W Hc Fc Fn Ne0 L0 F0)).
       set (c1 := {| c_epoch := Some (einfo2 rate t (Z.of_nat (List.length ids))); c_sats := Some (map fix3 c0);
                     c_len := List.length c0; c_acc := c_acc c |}).
       assert (K : cont2 step v2_end_marker (map epoch_cont_line_v2 cr ++ tail) s c1
